@@ -218,7 +218,7 @@ impl Polynomial<Cmplx> {
         if sgn >= 0.0 { sgn = 1.0; } else { sgn = -1.0; }
         let q: Cmplx = - 0.5 * ( b + discriminant.sqrt() * sgn );
         roots[0] = q / a;
-        roots[1] = c / q;
+        roots[1] = if q == Cmplx::zero() { roots[0] } else { c / q };
         roots
     
     }
